@@ -144,6 +144,11 @@ def check_after_failed_write(ctx: Ctx, res: Result):
                 res.evaluations += 1
                 res.nontrivial.add(f"failw:{i}:{mode}:{fr}:{fn_}:{how}")
                 res.count("failed_write_runs", f"{mode}:{'empty' if how == 'fail-empty' else 'text'}-message")
+                again = sorted({e["rank"] for e in world.events if e["kind"] == "second_wait_returned"})
+                if again and not os.path.exists(os.path.join(path, cc.META)):
+                    res.failures.append(Failure(f"C02:{mode}:second-wait-returned-normally-without-commit",
+                                                f"write #{fn_} of rank {fr} failed: the first wait() raised, a second wait() on the same handle returned normally on ranks {again} "
+                                                f"but the snapshot is not committed [W={wl['W']} sched={sched}]", replay))
                 if failed and failed[0]["path"] != cc.META:
                     msg = cc.check_cut(wl, path)
                     if msg:
